@@ -379,10 +379,16 @@ pub fn generate(rng: &mut Rng, mode: Prop) -> Scenario {
                 7 => gen_exec(rng, &sc, m),
                 _ => {
                     // a fault, armed right before a call that can meet it
-                    match rng.below(3) {
+                    match rng.below(4) {
                         0 => {
                             forced.push(gen_set_program(rng, &sc, m, &offsets, &past));
                             Op::ArmVeto
+                        }
+                        3 => {
+                            // (popped last first: the compile meets the fault, then the code is run)
+                            forced.push(Op::Exec { engine: Engine::Jit, pkt: gen_pkt(rng, &sc, m), mb: 0 });
+                            forced.push(Op::JitCompile);
+                            Op::ArmMprotectFail
                         }
                         1 => {
                             forced.push(Op::SetVerifier { vid: rng.range(V_DEFAULT_EQ as u64, V_TAG_ODD as u64) as u8 });
@@ -402,7 +408,7 @@ pub fn generate(rng: &mut Rng, mode: Prop) -> Scenario {
         // adjacency biases
         let before = gm.clone();
         let pending_veto = matches!(sc.ops.last(), Some(Op::ArmVeto));
-        let pending_alloc = matches!(sc.ops.last(), Some(Op::ArmAllocFail));
+        let pending_alloc = matches!(sc.ops.last(), Some(Op::ArmAllocFail | Op::ArmMprotectFail));
         let succeeded = assume_correct(&sc, &mut gm, &op, pending_veto, pending_alloc);
         let is_new = matches!(op, Op::New { .. });
         let is_compile = matches!(op, Op::JitCompile | Op::ClCompile);
@@ -638,6 +644,6 @@ fn assume_correct(sc: &Scenario, gm: &mut Option<Model>, op: &Op, pending_veto: 
             }
             ok
         }
-        Op::Exec { .. } | Op::ArmVeto | Op::ArmAllocFail => true,
+        Op::Exec { .. } | Op::ArmVeto | Op::ArmAllocFail | Op::ArmMprotectFail => true,
     }
 }
